@@ -1,6 +1,6 @@
 #!/bin/bash
 # usage: confirm_seed.sh <mutout-dir-name> ; confirms a seeded change in a scratch worktree:
-#  with the patch: the existing suite passes and the demo fails; without it: the demo passes.
+#  with the patch: the existing suite (guard off) passes and the demo (guard on) fails; without it: the demo passes.
 set -u
 ID=$1
 SRC=/tmp/mutout/$ID
@@ -10,14 +10,16 @@ git -C /repo worktree remove --force $WT 2>/dev/null
 git -C /repo worktree add -f $WT HEAD >/dev/null 2>&1 || exit 3
 cd $WT
 git apply $SRC/patch.diff || { echo "PATCH-DOES-NOT-APPLY"; exit 3; }
+cargo test --offline --no-fail-fast > $SRC/confirm_suite.log 2>&1
+SUITE_FAIL=$(grep -E '^test result' $SRC/confirm_suite.log | grep -v ' 0 failed' | wc -l)
+SUITE_N=$(grep -E '^test result' $SRC/confirm_suite.log | awk '{s+=$4} END {print s}')
 cp $SRC/seeded_demo.rs tests/seeded_demo.rs
-cargo test --offline --no-fail-fast > $SRC/confirm_with.log 2>&1
-WITH_SUITE=$(grep -E '^test result' $SRC/confirm_with.log | grep -v ' 0 failed' | wc -l)
-WITH_DEMO=$(awk '/Running tests\/seeded_demo.rs/{f=1} f&&/^test result/{print; exit}' $SRC/confirm_with.log)
+cargo test --offline --features verif --test seeded_demo > $SRC/confirm_with.log 2>&1
+WITH_DEMO=$(grep -E '^test result' $SRC/confirm_with.log | head -1)
 git apply -R $SRC/patch.diff
-cargo test --offline --test seeded_demo > $SRC/confirm_without.log 2>&1
+cargo test --offline --features verif --test seeded_demo > $SRC/confirm_without.log 2>&1
 WITHOUT_DEMO=$(grep -E '^test result' $SRC/confirm_without.log | head -1)
-echo "ID=$ID suites-with-failures(with patch, incl. demo)=$WITH_SUITE"
+echo "ID=$ID existing suite with patch (guard off): $SUITE_N tests passed, suites with failures=$SUITE_FAIL"
 echo "  demo with patch   : $WITH_DEMO"
 echo "  demo without patch: $WITHOUT_DEMO"
 cd /; git -C /repo worktree remove --force $WT
